@@ -436,6 +436,7 @@ class Env:
         info = self.info()
         if extra:
             info.update(extra)
+        info["req"] = req
         a: Ans = self.oracle.choose(kind, info)
         self.answers.append(a.toks())
         if (self.cfg.silent_hooks and kind in ("metric", "log", "beforeSleep") and a.kind == "raise"
